@@ -943,12 +943,32 @@ caption_command(vbi_decoder *vbi, struct caption *cc,
 				row1 = 0;
 
 			if (row1 != ch->row1) {
-				ch->row1 = row1;
-				erase_memory(cc, ch, ch->hidden);
-				erase_memory(cc, ch, ch->hidden ^ 1);
+				vbi_page *spg = ch->pg + (ch->hidden ^ 1);
+				vbi_char *line1 = ch->line
+					+ (row1 - ch->row1) * COLUMNS;
+				int begin = ch->row1 * COLUMNS;
+				int end = begin + ch->roll * COLUMNS;
 
-				/* The displayed page changed. */
-				clear(ch->pg + (ch->hidden ^ 1));
+				/* 47 CFR 15.119 (f)(1)(ii): The window moves
+				   with its text. */
+				memmove(spg->text + row1 * COLUMNS,
+					spg->text + begin,
+					sizeof(*spg->text) * ch->roll * COLUMNS);
+
+				for (i = begin; i < end; i++)
+					if (i < row1 * COLUMNS
+					    || i >= (row1 + ch->roll) * COLUMNS)
+						spg->text[i] = cc->transp_space[0];
+
+				/* Our copy of the base row. */
+				memcpy(line1, ch->line, sizeof(*line1) * COLUMNS);
+
+				for (i = 0; i < COLUMNS; i++)
+					ch->line[i] = cc->transp_space[0];
+
+				ch->row1 = row1;
+
+				render(spg, -1);
 			}
 
 			set_cursor(ch, 1, ch->row1 + ch->roll - 1);
